@@ -108,7 +108,8 @@ impl Node {
                     }
                     Err(e) => {
                         attempt += 1;
-                        if attempt >= 3 {
+                        eprintln!("node {} attempt {} failed: {}", name, attempt, e.chars().take(600).collect::<String>());
+                        if attempt >= 6 {
                             return Err(format!("node {} did not start: {}", name, e));
                         }
                         cur = Self::spawn(work, &format!("{}-{}", name, attempt), cfg);
@@ -181,6 +182,12 @@ impl Node {
                     let tail = node.log_tail();
                     return Err(format!("server exited during start-up ({}): {}", st, tail));
                 }
+            }
+            // the snapshot has a start-up race (an apply request can reach StateApplyManager before its
+            // dependencies are injected: `unwrap()` on None in raft/filestore/raftapply.rs): the process
+            // stays up but never serves - start another one instead of waiting for the deadline
+            if node.log_tail().contains("panicked at") {
+                return Err(format!("server panicked during start-up: {}", node.log_tail()));
             }
             if let Ok(t) = node.api_login(ADMIN_USER, admin_pass()) {
                 if !t.is_empty() && node.console_login(ADMIN_USER, admin_pass()).is_ok() {
